@@ -277,6 +277,24 @@ func variant(rng *rand.Rand, q *Query) *Query {
 	return &r
 }
 
+// crossOp: another operation on the SAME argument values and options, with a node also moved between the subject and
+// the object position (requests whose keys differ only in the operation name or in the position of a UUID)
+func crossOp(rng *rand.Rand, q *Query) *Query {
+	r := *q
+	r.Op = opNames[rng.Intn(len(opNames))]
+	if n, err := q.O.Node(); err == nil && rng.Intn(2) == 0 {
+		r.S, r.O = n, triple.NewNodeObject(q.S)
+	} else if rng.Intn(3) == 0 {
+		r.O = triple.NewNodeObject(q.S)
+	}
+	if r.Op == "Exist" {
+		if t, err := triple.New(r.S, r.P, r.O); err == nil {
+			r.T = t
+		}
+	}
+	return &r
+}
+
 // ------------------------------------------------------------------------------------------------ pooled stores
 // storage/memory pre-sizes seven maps with 10000 buckets for every new graph (a few milliseconds each), so the
 // harness re-uses memory stores: a pooled store has the graphs "?a", "?b", "?g" and is emptied before re-use.
@@ -472,8 +490,11 @@ func genSeq(id int, seed int64, faults bool) SeqCase {
 			switch x := rng.Intn(10); {
 			case len(pool) > 0 && x < 5:
 				q = pool[rng.Intn(len(pool))] // repeat: cache hit candidates
-			case len(pool) > 0 && x < 7:
+			case len(pool) > 0 && x < 6:
 				q = variant(rng, pool[rng.Intn(len(pool))])
+				pool = append(pool, q)
+			case len(pool) > 0 && x < 8:
+				q = crossOp(rng, pool[rng.Intn(len(pool))])
 				pool = append(pool, q)
 			default:
 				q = v.randQuery(rng, presentList(hgraph[h]))
